@@ -534,6 +534,11 @@ func (s *BaseNodeService) reinitDKG(message storage.Message) error {
 		return fmt.Errorf("failed to umarshal request:  %w", err)
 	}
 
+	// a reinit message is not signed: it may only touch the round it is posted for
+	if req.DKGID == "" || req.DKGID != message.DkgRoundID {
+		return fmt.Errorf("reinit message of round %q names round %q", message.DkgRoundID, req.DKGID)
+	}
+
 	roundExist, existErr := s.fsmService.IsExist(req.DKGID)
 	if existErr != nil {
 		return existErr
@@ -554,6 +559,11 @@ func (s *BaseNodeService) reinitDKG(message storage.Message) error {
 	for _, msg := range req.Messages {
 		if fsm.Event(msg.Event) == sif.EventSigningStart {
 			break
+		}
+
+		// the messages are replayed without signature verification: only those of the round being reinitialized
+		if msg.DkgRoundID != req.DKGID {
+			continue
 		}
 
 		// LDC-07 Messages May Be Sent to a Single Node
